@@ -143,8 +143,19 @@ def cut_loop(ip, stmt, st, spec, kind, it):
     dom = None
     if kind == 'for':
         dom = for_domain(ip, st, it, stmt)
+    # ------------------------------------------------------------ values at loop entry (readable as at_entry.<var>)
+    from .contracts import snapshot
+    snap = {}
+    for n, v in st.frame.items():
+        if n.startswith('$'):
+            continue
+        try:
+            snap[n] = snapshot(ip, st, v)
+        except Unsupported:
+            pass
+    at_entry = st.new_obj('<entry>', snap)
     # ------------------------------------------------------------ initiation
-    env0 = {}
+    env0 = {'at_entry': at_entry}
     if kind == 'for':
         env0[K] = 0
         dom.bind_head(ip, st, stmt.target, 0, env0, init=True)
@@ -156,6 +167,9 @@ def cut_loop(ip, stmt, st, spec, kind, it):
     head = st.clone()
     fr = head.frame
     for n in names:
+        if n in spec.types and spec.types[n] is None:
+            fr.pop(n, None)         # declared local to one iteration: unbound at the loop head
+            continue
         if n in fr and not isinstance(fr[n], (type(None),)) or n in spec.types:
             cur = fr.get(n)
             from .values import FuncRef
@@ -194,7 +208,7 @@ def cut_loop(ip, stmt, st, spec, kind, it):
         if t is None:
             raise Unsupported('cannot havoc ghost %s' % g)
         head.ghost[g] = fresh('ghost_' + g, t) if not (isinstance(t, tuple) and t[0] == 'list') else head.new_symlist(fresh('ghost_' + g, t).t, t[1])
-    envh = {}
+    envh = {'at_entry': at_entry}
     if kind == 'for':
         k = fresh(K, 'int')
         envh[K] = k
